@@ -114,12 +114,12 @@ def record_new_state_facts(chk, pid):
         # ---- what the script did
         before = w.fs_stamp(tuple(T_NAME))                       # target before the job: absent | file | dir
         before_md = some(w.metadata(tuple(T_NAME), before)) if before is not None else none()
-        touched = eng.choose(3, 'script touched $1') if True else 0
-        # 0: left $1 alone; 1: (re)wrote $1 directly (new mtime); 2: removed $1
-        if touched == 1:
+        touched = eng.choose(4, 'script touched $1')
+        # 0: left $1 alone; 1: (re)wrote $1 directly (newer mtime); 2: removed $1; 3: (re)wrote $1 keeping an OLDER mtime (cp -p)
+        if touched in (1, 3):
             if before is not None and tuple(before) == tuple(S_DIR):
                 raise PathDead()
-            w.fs[tuple(T_NAME)] = tuple(S_NEW2)
+            w.fs[tuple(T_NAME)] = tuple(S_NEW2) if touched == 1 else tuple(buildworld.S_OLDER)
             w.content[tuple(T_NAME)] = 'script-wrote-$1'
         elif touched == 2:
             if before is None:
@@ -194,7 +194,7 @@ def record_new_state_facts(chk, pid):
         if outcome != 'ok':
             return None
         ret = val
-        modified = st['touched'] == 1 or (st['touched'] == 0 and False)
+        modified = st['touched'] in (1, 3)
         both = st['has3'] and st['out_size'] > 0
         script_ok = (rv0 == 0)
         chk.goal('record_new_state: $1 modified directly', modified)
@@ -362,6 +362,7 @@ cc -shared -fPIC -O1 -o ./shim.so "$SHIM_SRC" -ldl || { echo CANNOT-BUILD-SHIM; 
 SHIM="$PWD/shim.so"
 mkdir proj && cd proj
 cat > tgt.do <<'DO'
+if [ -e ../kill-now ]; then rm -f ../kill-now; kill -9 $PPID; exit 1; fi
 redo-ifchange src
 @OUTPUT@
 DO
@@ -373,6 +374,7 @@ if [ "@PRIOR@" != never-built ]; then
     sleep 0.05
     echo v2 > src
 fi
+[ '@CRASH@' = script ] && : > ../kill-now
 VERIF_CRASH='@CRASH@' LD_PRELOAD="$SHIM" redo-ifchange tgt >../killed.log 2>&1
 echo "killed-rc=$?"
 redo-ifchange tgt >../recovery.log 2>&1
@@ -392,13 +394,89 @@ CRASH_SPEC = {
     'after-unlink-before-commit': 'after:unlink:tgt',
     'after-copy-before-rename': 'before:rename:tgt',
     'after-script-creates-$3-before-rename': 'before:rename:tgt',
+    # the redo process is killed while the script runs, before the script did anything (the script kills its parent)
+    'after-commit-before-job-start': 'script',
+    'after-job-start-before-script-declares-dep': 'script',
+    'after-job-start-before-script-writes-stdout': 'script',
+    'after-job-start-before-script-creates-$3': 'script',
+    'after-job-start-before-end': 'script',
 }
+
+
+PREAMBLE_SCENARIO = r"""
+set -u
+mkdir proj && cd proj
+echo v1 > src
+printf 'echo ran >> ../ran.log\ncat src\n' > @DOFILE@
+@SETUP@
+redo-ifchange tgt >../run1.log 2>&1
+echo "rc1=$?"
+echo "tgt1=$(cat tgt 2>/dev/null || echo MISSING)"
+echo "ran1=$(wc -l < ../ran.log 2>/dev/null || echo 0)"
+redo-ifchange tgt >../run2.log 2>&1
+echo "rc2=$?"
+echo "tgt2=$(cat tgt 2>/dev/null || echo MISSING)"
+echo "ran2=$(wc -l < ../ran.log 2>/dev/null || echo 0)"
+ls | grep -c 'redo.tmp' | sed 's/^/tmpfiles=/'
+sed 's/^/LOG1: /' ../run1.log | head -6
+"""
+
+
+def preamble_replay(scn, c):
+    """start_self counterexamples: the prior row / filesystem state named by the witness is produced by a short real history, then
+    the real `redo-ifchange tgt` runs twice"""
+    role = c['role'].split(':', 1)[1]
+    w = c['witness']
+    m = w.get('model', {})
+    row = (m.get('files') or {}).get(T_ID) or (m.get('files') or {}).get(str(T_ID)) or {}
+    dof = 'tgt.do' if 'tgt.do' in w.get('dofiles', []) or not w.get('dofiles') else 'default.do'
+    exists = w.get('fs') is not None
+    gen = bool(row.get('is_generated'))
+    build_first = 'redo-ifchange tgt >/dev/null 2>&1 || { echo SETUP-FAILED; exit 97; }; : > ../ran.log; sleep 0.05'
+    if role == 'stale-tmp':
+        setup = 'echo STALE-PARTIAL-OUTPUT > tgt.redo.tmp'
+        want = {'rc1': '0', 'tgt1': 'v1', 'tmpfiles': '0'}
+    elif role in ('touches-foreign-file', 'foreign-file-status', 'foreign-file-role'):
+        if gen:
+            setup = build_first + '\necho USER-EDIT > tgt'      # generated, then edited by hand
+        else:
+            setup = 'echo USER-EDIT > tgt'                       # the user's own file; a rule matches its name
+        want = {'rc1': '0', 'tgt1': 'USER-EDIT', 'ran1': '0', 'rc2': '0', 'tgt2': 'USER-EDIT', 'ran2': '0'}
+    elif role == 'not-started':
+        if exists:
+            setup = build_first + '\necho v2 > src'
+            want = {'rc1': '0', 'tgt1': 'v2'}
+        elif gen:
+            setup = build_first + '\necho USER-EDIT > tgt\nredo-ifchange tgt >/dev/null 2>&1\nrm -f tgt'     # overridden, then removed
+            want = {'rc1': '0', 'tgt1': 'v1'}
+        else:
+            setup = ':'
+            want = {'rc1': '0', 'tgt1': 'v1'}
+    elif role == 'no-rule-status':
+        dof = 'other.do'
+        setup = 'echo USER > tgt' if exists else ':'
+        want = {'rc1': '0', 'tgt1': 'USER'} if exists else {'tgt1': 'MISSING'}
+    else:
+        return False, 'no scenario for %s' % role
+    script = PREAMBLE_SCENARIO.replace('@DOFILE@', dof).replace('@SETUP@', setup)
+    rc, out = scn.run({}, script, timeout=300)
+    c['scenario_output'] = out[-2500:]
+    if rc == 97 or 'SETUP-FAILED' in out:
+        return False, 'scenario could not be set up: ' + out[-300:]
+    lines = dict(l.split('=', 1) for l in out.split('\n') if '=' in l and not l.startswith('LOG'))
+    lines = {k: v.strip() for k, v in lines.items()}
+    bad = {k: (lines.get(k), v) for k, v in want.items() if lines.get(k) != v}
+    if role == 'no-rule-status' and not exists and lines.get('rc1') == '0':
+        bad['rc1'] = ('0', 'non-zero')
+    return bool(bad), 'real binaries: %s (observed vs expected: %r)' % ('deviates' if bad else 'as expected', bad or want)
 
 
 def make_replay(chk, rep, scn):
     def replay(c):
         role = c.get('role', '')
         w = c.get('witness', {})
+        if role.startswith('start_self:') and c.get('kind') == 'buildjob':
+            return preamble_replay(scn, c)
         if c.get('kind') == 'crash' and w.get('crash_point') in CRASH_SPEC and w.get('script'):
             import os
             sc = w['script']
@@ -418,7 +496,13 @@ def make_replay(chk, rep, scn):
             want_final = 'v3' if (sc['has3'] or sc['stdout']) else 'MISSING'
             stale = lines.get('recovery-rc') == '0' and lines.get('later-rc') == '0' and lines.get('final') != want_final
             kind = role.split(':')[1] if ':' in role else ''
-            if kind in ('treated-as-foreign', 'dirtiness-lost'):
+            if kind == 'dirtiness-lost':
+                want_rec = ('v2' if w['prior_state'] != 'never-built' else 'v1') if (sc['has3'] or sc['stdout']) else 'MISSING'
+                stale_now = lines.get('recovery-rc') == '0' and lines.get('after-recovery') != want_rec
+                return stale_now, 'real binaries, redo killed %s (%s): the next redo-ifchange exits %s and leaves the target at %r ' \
+                                  '(a from-scratch build gives %r)' % (w['crash_point'], CRASH_SPEC[w['crash_point']],
+                                                                      lines.get('recovery-rc'), lines.get('after-recovery'), want_rec)
+            if kind in ('treated-as-foreign',):
                 return stale, 'real binaries, redo killed %s (%s): recovery exits %s, after a further source edit redo-ifchange exits %s and ' \
                               'the target is %r (a from-scratch build gives %r)' % (w['crash_point'], CRASH_SPEC[w['crash_point']],
                                                                                  lines.get('recovery-rc'), lines.get('later-rc'),
@@ -684,6 +768,7 @@ def as_bool(v):
 
 # ------------------------------------------------------------------------------------------------ whole job + crash points (C10)
 SRC_ID = 3
+DO_ID = 4
 SRC_NAME = b'src'
 PRESTATES = {
     # name: (row cells of the target, filesystem state of the target, content tag)
@@ -747,9 +832,13 @@ def crash_facts(chk, pid):
         w.add_file(SRC_ID, SRC_NAME, is_generated=None, is_override=None, checked_runid=None, changed_runid=5, failed_runid=None,
                    stamp=tuple(S1), csum=None)
         w.fs[tuple(SRC_NAME)] = tuple(S2) if src_edited else tuple(S1)
-        if pre != 'never-built':
-            w.deps[(T_ID, SRC_ID)] = {'mode': tuple(b'm'), 'delete_me': 0}
         w.fs[tuple(b'tgt.do')] = tuple(S1)
+        if pre != 'never-built':
+            # as the earlier build left it: edges on the source and on the script, the script's row up to date
+            w.deps[(T_ID, SRC_ID)] = {'mode': tuple(b'm'), 'delete_me': 0}
+            w.add_file(DO_ID, b'tgt.do', is_generated=False, is_override=False, checked_runid=None, changed_runid=4, failed_runid=None,
+                       stamp=tuple(S1), csum=None)
+            w.deps[(T_ID, DO_ID)] = {'mode': tuple(b'm'), 'delete_me': 0}
         w.do_firstline = b'echo hi\n'
         w.db_committed = w.snap_db()
         env = dbmodel.make_env(eng, R, log=0)
